@@ -271,7 +271,8 @@ fn family_boundaries(g: &mut Gen<'_>, tier_thorough: bool) {
     let base = base_small();
     let p = walk_package(&base).unwrap();
     let len = base.len() as u32;
-    let vals = |real: u32| vec![0u32, 1, real.wrapping_sub(1), real, real + 1, len, 1 << 16, 1 << 28, 1 << 31, u32::MAX - 15, u32::MAX];
+    // incl. the largest values rpm itself accepts (0xffff entries, 0x0fffffff data bytes) and their neighbours
+    let vals = |real: u32| vec![0u32, 1, real.wrapping_sub(1), real, real + 1, len, 0xffff, 1 << 16, 1 << 20, 1 << 24, 0x0fff_ffff, 1 << 28, 1 << 31, u32::MAX - 15, u32::MAX];
     for (h, name) in [(&p.sig, "sig"), (&p.hdr, "hdr")] {
         for il in vals(h.il) {
             for dl in vals(h.dl) {
